@@ -15,7 +15,7 @@ RULE = ("generated families where most fields carry at/shift/aligned (references
         "alignment with padding; distinct = (source, raw/tree)")
 ASSUMPTIONS = ["reference model bv/ir.py trusted", "cursor never moved before index 0 or >256 bytes beyond the input (unspecified there)"]
 
-PROF = gen.profile(move=0.6, max_pkts=3, w={"int": 5, "data": 4, "bits": 1, "ref": 5, "refsel": 1, "seq": 4, "opt": 2, "em": 2},
+PROF = gen.profile(defaults=0.3, move=0.6, max_pkts=3, w={"int": 5, "data": 4, "bits": 1, "ref": 5, "refsel": 1, "seq": 4, "opt": 2, "em": 2},
                    regex_unkept=False)
 
 
